@@ -32,6 +32,18 @@ def step (x : S) (w : List String) : Option (S × String × List String) :=
         (if replay then ["replay"] else []) ++ (if s.srcClosed then ["get_after_srcclose"] else []))
     | .blocked => some (x, "blocked", if s.srcClosed then ["blocked_closed_src"] else ["blocked"])
     | .err e => some (x, "err " ++ errStr e, ["get_err"])
+  | ["getflipres", "val", v] => do
+    -- a Get whose context was cancelled right after its up-front check, and which reported a value: it is one model Get
+    let v ← v.toNat?
+    if x.pendingGet then none else
+    let (s', r) := getOp s
+    match r with
+    | .val v' => if v' == v then some ({ x with st := s' }, "ok", ["get_with_late_cancel_took_value"])
+                 else some (x, s!"rejected: the model's next value is {v'}", [])
+    | _ => some (x, "rejected: nothing to take in the model", [])
+  | ["getflipres", "err"] =>
+    -- … and one that reported the context's error: it took NOTHING (C13: the state / buffer lines that follow compare)
+    if x.pendingGet then none else some (x, "ok", ["get_with_late_cancel_failed"])
   | ["pget", n] => do
     -- n values are sent, then n Gets run (on four goroutines): n polls of the model, in whatever order the goroutines take turns
     let n ← n.toNat?
